@@ -7,7 +7,7 @@ From Coq Require Import List NArith ZArith Bool.
 Import ListNotations.
 From JR Require Import Stream Stream_Proofs.
 From JRGen Require Extracted.
-From JR Require Skeletons Forwarder Forwarder_Proofs.
+From JR Require Skeletons Forwarder Forwarder_Proofs ReadPipe ReadPipe_Proofs.
 
 Theorem c07_source_facts :
   Extracted.chValue = "xrpc.ch.val"%string /\ Extracted.chClose = "xrpc.ch.close"%string /\
@@ -96,6 +96,15 @@ Example c07_forwarder_nonvacuous :
     = [None; None; None; Some 3; Some 1; Some 3; Some 2; Some 3; None; Some 4]%N.
 Proof. split; reflexivity. Qed.
 
+(* ---- the wire-to-executor FIFO the stream model uses implicitly (ReadPipe.v): for EVERY trace of the read pipeline the
+   executor takes frames in the order they came off the wire, none twice, and every frame read off the wire is executed,
+   queued, in the pipeline, or was lost with its connection (its body could not be read) *)
+Theorem c07_frames_executed_in_wire_order : forall db es s, ReadPipe.rrun db ReadPipe.rp0 es = Some s ->
+  Sorted.StronglySorted lt (ReadPipe.executed s) /\
+  (forall f, f < ReadPipe.nextf s ->
+     In f (ReadPipe.executed s) \/ In f (ReadPipe.queue s) \/ In f (ReadPipe.in_pipe s) \/ In f (ReadPipe.lost s)).
+Proof. exact ReadPipe_Proofs.frames_in_wire_order. Qed.
+
 (* the functions this property's model is an abstraction of still have the control / locking / shared-state skeleton the
    model was written against (Skeletons.v, by hand; Extracted.v, regenerated from /repo) *)
 Theorem c07_code_skeletons :
@@ -106,6 +115,7 @@ Theorem c07_code_skeletons :
 Proof. repeat split; reflexivity. Qed.
 
 Print Assumptions c07_code_skeletons.
+Print Assumptions c07_frames_executed_in_wire_order.
 Print Assumptions c07_forwarder_tags.
 Print Assumptions c07_forwarder_aligned.
 Print Assumptions c07_swap_remove_is_removal.
